@@ -425,6 +425,41 @@ def run(chk, prog):
                             where(s, xf), "sign analysis of `%s` gives %s" % (C.pretty(e)[:100], v), function=xf["full"],
                             construct="non-negative return")
 
+    q5_helpers = {d["full"].split("(")[0]: d for d in xu.decls if d["kind"] == "function" and d.get("body") is not None and
+                  not d.get("cls")}
+    q5_depth = [0]
+
+    def collect_return_signs(stmts, env, out):
+        """Signs of the values a (helper) function can return; locals as in sign_of_returns."""
+        for s_ in stmts:
+            k_ = s_.get("k")
+            if k_ == "Block" and not s_.get("mac"):
+                collect_return_signs(s_["s"], env, out)
+            elif k_ == "Decl":
+                for d_ in s_["d"]:
+                    if d_.get("init") is None or d_.get("t", "").replace("const ", "").strip() != "double":
+                        continue
+                    env[("l", d_["id"])] = sq_eval(d_["init"], env)
+            elif k_ == "Bin" and s_["op"] == "=" and C.strip_casts(s_["a"]).get("k") == "Ref":
+                env[("l", C.strip_casts(s_["a"])["id"])] = sq_eval(s_["b"], env)
+            elif k_ == "If":
+                e1_, e2_ = dict(env), dict(env)
+                collect_return_signs([s_["th"]], e1_, out)
+                if s_.get("el") is not None:
+                    collect_return_signs([s_["el"]], e2_, out)
+                for key_ in set(e1_) | set(e2_):
+                    a_, b_ = e1_.get(key_), e2_.get(key_)
+                    if a_ is not None and b_ is not None and a_.s == b_.s:
+                        env[key_] = a_
+                    elif a_ is not None and b_ is not None and {a_.s, b_.s} <= {"+", "0+", "0"}:
+                        env[key_] = SM("0+", "?")
+                    else:
+                        env[key_] = SM("?", "?")
+            elif k_ == "Return" and s_.get("x") is not None:
+                out.append(sq_eval(s_["x"], env))
+            elif k_ in ("For", "While", "Do", "Switch"):
+                raise AnalysisBroken("get_cross_section_verner: a helper with a loop (line %s)" % s_.get("l"))
+
     def sq_eval(e, env):
         """sm_eval plus: x*x and (a*a + nonneg) are non-negative whatever the sign of x."""
         e = C.strip_casts(e)
@@ -436,6 +471,22 @@ def run(chk, prog):
             return sm_eval({"k": "Bin", "op": e["op"], "a": {"k": "Ref", "id": -1}, "b": {"k": "Ref", "id": -2}}, tmp)
         if e.get("k") == "Bin" and e["op"] == "-":
             return SM("?", "?")
+        if e.get("k") == "Call" and not e.get("obj") and (e.get("fn") or "") in q5_helpers and q5_depth[0] < 3:
+            callee = q5_helpers[e["fn"]]
+            if len(callee["params"]) == len(e["a"]):
+                env2 = {}
+                for p_, a_ in zip(callee["params"], e["a"]):
+                    if (p_.get("t") or "").replace("const ", "").strip() == "double":
+                        env2[("l", p_["id"])] = sq_eval(a_, env)
+                signs = []
+                q5_depth[0] += 1
+                collect_return_signs(callee["body"]["s"], env2, signs)
+                q5_depth[0] -= 1
+                if not signs:
+                    raise AnalysisBroken("get_cross_section_verner: helper %s returns nothing" % callee["name"])
+                if all(x.s == signs[0].s for x in signs):
+                    return SM(signs[0].s, "?")
+                return SM("0+", "?") if all(x.s in ("+", "0+", "0") for x in signs) else SM("?", "?")
         if e.get("k") == "Call":
             base = (e.get("fn") or e.get("n") or "").split("::")[-1]
             if base == "pow" and len(e["a"]) == 2:
@@ -452,6 +503,13 @@ def run(chk, prog):
         if e.get("k") == "Un" and e.get("op") == "-":
             a = sq_eval(e["x"], env)
             return SM("-" if a.s == "+" else "?", "?")
+        if e.get("k") == "Cond":
+            a, b = sq_eval(e["a"], env), sq_eval(e["b"], env)
+            if a.s == b.s:
+                return SM(a.s, "?")
+            return SM("0+", "?") if {a.s, b.s} <= {"+", "0+", "0"} else SM("?", "?")
+        if e.get("k") == "Idx" or (e.get("k") == "Call" and e.get("op") == "[]"):
+            return SM("0+", "const")          # table entry (assumed non-negative)
         raise AnalysisBroken("get_cross_section_verner: the sign analysis does not understand `%s` (line %s)" %
                              (C.pretty(e)[:80], e.get("l")))
     env0 = {("l", epar[0]["id"]): SM("0+", "inc")}
